@@ -1,7 +1,7 @@
 (* C07/Props.v — property-level theorems only. Part A (core level) below; part B (file level: raftfs state file and
    snapshot manager over CrashFS) appends its theorems to this file.  Tags are read by bin/check. *)
 From Coq Require Import List NArith ZArith.
-From BLB Require Import Raft.Core Raft.Wire Raft.Legit Raft.NodeProofs C07.A_Witness C07.A_Repaired C07.A_Proofs.
+From BLB Require Import Raft.Core Raft.Wire Raft.Legit Raft.NodeProofs Raft.NodeElect C07.A_Witness C07.A_Repaired C07.A_Proofs.
 Import ListNotations.
 Open Scope N_scope.
 
@@ -44,3 +44,24 @@ Theorem no_gap_fatal_on_consistent_storage :
     handle_app_ents s from pi pt cm (Some (e0 :: rest)) <> Fatal F_GAP.
 Proof. exact no_gap_when_consistent. Qed.
 Print Assumptions no_gap_fatal_on_consistent_storage.
+
+(* [FULL] part A, acts_after_persist: for every settled node state and every event, every message the handler emits carries the
+   term that is durable when the handler returns and the node's own id, and a granted vote is emitted only with exactly
+   that vote durable; messages leave only when the handler returns (TakeAllMsgs), so with crash_keeps_term_and_vote a crashed
+   handler has sent nothing and a node never forgets a term or vote it acted on *)
+Theorem acts_after_persist :
+  forall s ev st s', n_msgs s = [] -> run_event s ev = Ret (st, s') ->
+    Forall (fun m => m_term m = p_term (n_p s') /\ m_from m = n_id s' /\
+                     (m_body m = VoteResp true -> p_vote (n_p s') = m_to m)) (n_msgs s').
+Proof. intros s ev st s' H R. destruct (run_event_sum s ev st s' H R) as [_ [M _]]. exact M. Qed.
+Print Assumptions acts_after_persist.
+
+(* [FULL] part A, the repaired start-up keeps the durable term and vote, it only truncates the log *)
+Theorem restart_repaired_keeps_term_and_vote :
+  forall id cfg p s', new_core_fixed id cfg p = Ret s' ->
+    p_term p <= p_term (n_p s') /\ (p_term (n_p s') = p_term p -> p_vote p <> 0 -> p_vote (n_p s') = p_vote p).
+Proof.
+  intros id cfg p s' H. pose proof (new_core_fixed_pext id cfg p) as P. rewrite H in P.
+  destruct P as [A [B _]]. split; [exact A|]. intros Ht Hv. destruct (B Ht); congruence.
+Qed.
+Print Assumptions restart_repaired_keeps_term_and_vote.
